@@ -11,6 +11,8 @@
 -/
 import GLua.Proofs.ScopesFrame
 import GLua.Proofs.ScopesLam
+import GLua.Proofs.LinesMain
+import GLua.Proofs.LinesRange
 
 namespace GLua.Props.C17
 open GLua GLua.Scopes
@@ -157,4 +159,152 @@ example : ScopeSpec.wellNested (specEvs witnessOps) = true ∧
     (compileOps .fixed witnessOps).map (fun t => t.ipcs.map (enumLocals .fixed t.fc.locals))
       = .ok [["a"], ["a", "x"], ["a"], ["a", "b"], ["a", "b"]] := by decide
 
+/-! ## the line table (`FunctionProto.DbgSourcePositions`)
+
+  Model: GLua/Model/CompileLines.lean — on top of the function-by-function compile model of the C01M fragment
+  (conditions, logical / relational / arithmetic operators, unary minus, #, .., local and multiple assignment,
+  if / while / repeat / return, `patchCode`), the `line` argument of every `Add` call of compile.go, `Pop` / `SetA`,
+  and the parser actions that give every AST node its `Line()` / `LastLine()`; tied entry by entry to the real
+  compiler's `DbgSourcePositions` by the `linetab` family of `./check C17M` (programs rendered in multi-line layouts).
+  Spec: GLua/Spec/LineAst.lean — the source as a tree of tokens with their lines; span of a statement = [line of its
+  first token, line of its last token]; `Mono` = the lines never decrease in source order.
+  All theorems are for EVERY number structure (the constants folded at compile time do not influence a position). -/
+
+section LineTable
+open GLua.Compile GLua.Lines GLua.MiniVM
+variable [NumStruct]
+
+/-- **erasure** — the line layer is parallel to the existing compile model: for every program of the fragment the
+    table has exactly one entry per instruction the model emits for the position-free program (so every theorem
+    about that model — Props/C01, C07 — speaks about the instruction each entry belongs to). -/
+theorem line_table_parallel_to_code (p : TProg) :
+    (compLines p).length = (compileMain p.nlocals p.body.erase).code.length := compLines_length p
+
+/-- … and to the finished prototype: `patchCode` (JMP→NOP, jump threading, MOVE→MOVEN) rewrites words in place;
+    `len(Code) = len(DbgSourcePositions)` (the field `nLines` of the C07 prototype model). -/
+theorem line_table_parallel_to_proto (p : TProg) (pr : Verifier.Proto) (h : fragProto p.nlocals p.body.erase = .ok pr) :
+    pr.code.size = (compLines p).length ∧ pr.nLines = (compLines p).length := compLines_length_proto p pr h
+
+/-- the table = the entries written by the statements, then the final RETURN's; every statement entry has a statement. -/
+theorem line_table_shape (p : TProg) :
+    compLines p = stmtLines p ++ [finalLine p] ∧ (stmtSpans p).length = (stmtLines p).length :=
+  ⟨compLines_eq p, stmtSpans_length p⟩
+
+/-- **line_in_statement_span** — for EVERY program of the fragment whose token lines never decrease and EVERY pc
+    (other than the final RETURN's, which belongs to no statement): the line recorded for the instruction at pc lies
+    within [line of the first token, line of the last token] of the INNERMOST statement whose compilation wrote that
+    instruction (`stmtSpans`: the same compile functions run on the program in which every node carries the span of
+    the innermost statement it belongs to; the prologue `local … = ...` is a statement).  Pop-and-reuse of a slot
+    (Propagate(K)MV, the JMP removed by compileLogicalOpExpr, the CONCAT-popping loop), the `SetA` retargeting and
+    `patchCode` do not break this: the full statement holds, no guard. -/
+theorem line_in_statement_span (p : TProg) (hm : Mono p.toks) (pc l : Nat) (sp : Span)
+    (hl : (stmtLines p)[pc]? = some l) (hs : (stmtSpans p)[pc]? = some sp) : inSpan l sp := by
+  rw [stmtLines_eq_tagged, List.getElem?_map] at hl
+  simp only [stmtSpans, List.getElem?_map] at hs
+  cases hx : (bodyTagged p)[pc]? with
+  | none => rw [hx] at hl; cases hl
+  | some x =>
+    rw [hx] at hl hs
+    simp only [Option.map_some, Option.some.injEq] at hl hs
+    subst hl; subst hs
+    exact bodyTagged_good p hm x (List.mem_of_getElem? hx)
+
+/-- **single_line_statement_exact** — when that statement occupies a single line, the recorded line IS that line. -/
+theorem single_line_statement_exact (p : TProg) (hm : Mono p.toks) (pc l : Nat) (sp : Span)
+    (hl : (stmtLines p)[pc]? = some l) (hs : (stmtSpans p)[pc]? = some sp) (h1 : sp.1 = sp.2) : l = sp.1 := by
+  have := line_in_statement_span p hm pc l sp hl hs
+  unfold inSpan at this
+  omega
+
+/-- **statement_code_range** — the same property by CODE RANGES, compositionally: compile ANY statement of the fragment
+    from ANY store (whatever was compiled before; `WF`: one entry per instruction): the table only grows at its end —
+    no `Pop` of the statement's compilation reaches below the point where the statement started —, the grown table is
+    again parallel to the code of the existing model, and every entry at a position [len before, len after) — the code
+    of the statement, nested statements included — is a line within the statement's span.  Applied to every
+    (sub-)statement of a program this is: the line recorded at pc lies in the span of EVERY statement whose code
+    contains pc, in particular of the innermost one. -/
+theorem statement_code_range (s : TStmt) (hm : Mono s.toks) (S : LState Nat) (hS : WF S) :
+    ∃ δ, (compStmtL (toAStmt s) S).lines = S.lines ++ δ ∧
+      (compStmtL (toAStmt s) S).lines.length = (compileStmt s.erase S.st).code.length ∧
+      ∀ l ∈ δ, inSpan l s.span := by
+  obtain ⟨δ, h1, h2, h3⟩ := stmt_code_lines s S hS
+  refine ⟨δ, h1, ?_, fun l hl => mono_inSpan hm (h2 l hl)⟩
+  rw [← toAStmt_erase s, ← compStmtL_st]; exact h3
+
+/-- **header_code_range** — block headers: the instructions the condition of an `if` / `while` / `repeat … until`
+    compiles to (compileBranchCondition, from any store) carry lines within the HEADER of the statement:
+    [line of `if`, line of `then`], [line of `while`, line of `do`], [line of `until`, line of the condition's last token]. -/
+theorem header_code_range (s : TStmt) (hm : Mono s.toks) (c : TCond) (hc : s.cond? = some c) (S : LState Nat) (hS : WF S)
+    (thenl elsel : Nat) :
+    ∃ δ, (compileBranchConditionL S S.st.regTop (toA c) thenl elsel false).lines = S.lines ++ δ ∧
+      ∀ l ∈ δ, inSpan l s.header := by
+  obtain ⟨δ, h1, h2, _⟩ := expr_code_lines c (.bc S.st.regTop thenl elsel false) S hS (Nat.le_refl _)
+  exact ⟨δ, h1, fun l hl => cond_toks_in_header s hm c hc l (h2 l hl)⟩
+
+/-- **expression_code_range** — the instructions of an expression (any mode: value, operand of and/or, branch condition;
+    from any store whose register top is not above the working register) carry lines of the expression's own tokens. -/
+theorem expression_code_range (c : TCond) (m : Mode) (S : LState Nat) (hS : WF S) (htop : S.st.regTop ≤ m.reg) :
+    ∃ δ, (compL (toA c) m S).S.lines = S.lines ++ δ ∧ ∀ l ∈ δ, l ∈ c.toks := by
+  obtain ⟨δ, h1, h2, _⟩ := expr_code_lines c m S hS htop
+  exact ⟨δ, h1, h2⟩
+
+/-- **lines_shift_invariant** — line information is a function of token positions only: moving every token from
+    line l to line σ l (ANY σ; inserting blank or comment lines is an order-preserving one) moves every entry written by
+    a statement from l to σ l … -/
+theorem lines_shift_invariant (p : TProg) (σ : Nat → Nat) : stmtLines (p.mapLines σ) = (stmtLines p).map σ :=
+  stmtLines_mapLines σ p
+
+/-- … and the final RETURN's entry is (line the last statement's `eline` moved to) + 1 — `Compile` sets
+    `LastLine = eline(last statement) + 1` —, 0 for an empty chunk. -/
+theorem final_line_shift (p : TProg) (σ : Nat → Nat) :
+    finalLine (p.mapLines σ) = match lastEline p with | some l => σ l + 1 | none => 0 :=
+  finalLine_mapLines σ p
+
+/-- the full statement (EVERY entry moves with σ) … -/
+def LinesShiftInvariantFull : Prop :=
+  ∀ (p : TProg) (σ : Nat → Nat), (∀ a b, a < b → σ a < σ b) → compLines (p.mapLines σ) = (compLines p).map σ
+
+/-- … is FALSE of the code: the final RETURN is recorded on "line of the last statement + 1", which is not the line of
+    any token (it may not exist in the file).  Witness: the chunk `return` on line 1 and σ l = 2 l (a blank line inserted
+    before every line): the table [1, 2] becomes [2, 3], not [2, 4].  Not observable through error messages (the final
+    RETURN cannot fail and gopher-lua has no line hooks); recorded as an observation, not a finding. -/
+theorem lines_shift_invariant_full_fails : ¬ LinesShiftInvariantFull := by
+  intro h
+  have := h { nlocals := 0, body := .cons (.ret 1 []) .nil } (fun l => 2 * l) (fun a b hab => by omega)
+  have h1 : compLines (TProg.mapLines (fun l => 2 * l) { nlocals := 0, body := .cons (.ret 1 []) .nil }) = [2, 3] := rfl
+  have h2 : (compLines { nlocals := 0, body := .cons (.ret 1 []) .nil }).map (fun l => 2 * l) = [2, 4] := rfl
+  rw [h1, h2] at this
+  revert this; decide
+
+end LineTable
+
+/-! non-vacuity of the line-table theorems: `exampleProg` (Proofs/LinesMain.lean: an if/else with a condition spread over
+    three lines, a multiple assignment over five, a while loop, a two-line return), integer number structure -/
+section
+open GLua.Compile GLua.Lines
+attribute [local instance] lineNS
+
+example : Mono exampleProg.toks ∧
+    compLines exampleProg = [1, 2, 2, 3, 3, 6, 6, 2, 9, 9, 9, 8, 8, 8, 14, 14, 15, 15, 16, 17, 16, 17] ∧
+    stmtSpans exampleProg = [(1, 1), (2, 13), (2, 13), (2, 13), (2, 13), (6, 6), (6, 6), (2, 13), (8, 12), (8, 12), (8, 12),
+      (8, 12), (8, 12), (8, 12), (14, 15), (14, 15), (15, 15), (14, 15), (16, 17), (16, 17), (16, 17)] ∧
+    (compileMain exampleProg.nlocals exampleProg.body.erase).code.length = 22 := by
+  decide +kernel
+
+/-- `statement_code_range` / `header_code_range` on the while loop of `exampleProg` (lines 14–15), compiled from a store
+    that already holds the prologue and a first statement -/
+example :
+    let S0 : LState Nat := compBodyL 2 1 (toABlock (.cons (.localDef 3 (.num 3 7)) .nil))
+    let s : TStmt := .whileS 14 (.not 14 (.loc 14 0)) 14 (.cons (.assign (15, .loc 0) [] [.ev 15 1]) .nil) 15
+    S0.lines.length = S0.st.code.length ∧ S0.lines = [1, 3] ∧ Mono s.toks ∧ s.span = (14, 15) ∧ s.header = (14, 14) ∧
+    (compStmtL (toAStmt s) S0).lines = S0.lines ++ [14, 14, 15, 15] ∧
+    (compileBranchConditionL S0 S0.st.regTop (toA (.not 14 (.loc 14 0))) 1 2 false).lines = S0.lines ++ [14, 14] := by
+  decide +kernel
+
+/-- the same text with two blank lines in front and one more before every line from 9 on -/
+example : stmtLines (exampleProg.mapLines fun l => if l < 9 then l + 2 else l + 3) =
+    [3, 4, 4, 5, 5, 8, 8, 4, 12, 12, 12, 10, 10, 10, 17, 17, 18, 18, 19, 20, 19] := by decide +kernel
+end
+
 end GLua.Props.C17
+
